@@ -72,12 +72,12 @@ static unsigned vg_unit(const uint8_t * b, int64_t n) { return b[n]; }
 void h_core_fsr(void) {
     struct jls_core_s * c = malloc(sizeof(*c));   /* jls_core_fsr uses signal_info[VG_SIG] and buf only */
     __CPROVER_assume(c != NULL);
-    c->raw = (struct jls_raw_s *) &vg_dummy_raw;
-    c->buf = malloc(sizeof(*c->buf)); __CPROVER_assume(c->buf != NULL);
-    c->buf->start = malloc(8); __CPROVER_assume(c->buf->start != NULL);
+    struct jls_buf_s * b = malloc(sizeof(*b)); __CPROVER_assume(b != NULL);
+    b->start = malloc(8); __CPROVER_assume(b->start != NULL);
     struct jls_core_signal_s * si = &c->signal_info[VG_SIG];
-    si->signal_def.signal_id = VG_SIG; si->signal_def.signal_type = JLS_SIGNAL_TYPE_FSR; si->chunk_def.offset = 64;
-    si->signal_def.data_type = VG_DT;
+    /* the (1.6 MB) core record is constrained, not assigned: assignments to it would put the whole record into every trace step */
+    __CPROVER_assume(c->buf == b && si->signal_def.signal_id == VG_SIG && si->signal_def.signal_type == JLS_SIGNAL_TYPE_FSR && si->chunk_def.offset == 64
+        && si->signal_def.data_type == VG_DT && si->signal_def.samples_per_data == VG_SPD);
     int64_t total, off, start, len;
     __CPROVER_assume(total >= 0 && total <= (int64_t) VG_CHUNKS * VG_SPD);
     __CPROVER_assume(off > -(1ll << 60) && off < (1ll << 60));
@@ -85,8 +85,7 @@ void h_core_fsr(void) {
     uint8_t stream[VG_CHUNKS * VG_CHUNK_BYTES];      /* uninitialised: arbitrary contents */
     vg_S = stream;
     vg_total = total; vg_off = off; vg_model_errors = 0; vg_model_calls = 0; vg_bad_request = 0;
-    si->signal_def.sample_id_offset = off;
-    si->signal_def.samples_per_data = VG_SPD;
+    __CPROVER_assume(si->signal_def.sample_id_offset == off);
     /* the caller's buffer holds exactly the requested samples (rounded up to a byte) */
     size_t out_sz = (len > 0 && len <= (int64_t) VG_CHUNKS * VG_SPD) ? (size_t) ((len * VG_BITS + 7) / 8) : 0;
     uint8_t * out = malloc(out_sz ? out_sz : 1);
